@@ -58,8 +58,11 @@ IdSets == {{a} : a \in Ident}
 
 \* In the exhaustive model a client's own values are the token "own" and the
 \* global ones "global": Effective then says whose values apply.
-Mk(n, ids, f) == [name |-> n, ids |-> ids, own |-> f[1], bs |-> f[2], vals |-> "own", svcs |-> "own"]
-Global == [vals |-> "global", svcs |-> "global"]
+\* (Pause windows of blocked-services schedules are the business of
+\* ClientSettings.tla and of the traces; here no request falls into one.)
+Mk(n, ids, f) == [name |-> n, ids |-> ids, own |-> f[1], bs |-> f[2], vals |-> "own", svcs |-> "own",
+                  pause |-> FALSE]
+Global == [vals |-> "global", svcs |-> "global", pause |-> FALSE]
 
 \* --------------------------------------------------------------- behaviour
 Init == /\ clients = {}
